@@ -74,29 +74,29 @@ func genConfig(seed int64, ci int) *config {
 // ---- case record ------------------------------------------------------------------------------------
 
 type kase struct {
-	Index    int      `json:"index"`
-	Config   string   `json:"config"`
-	Roots    []string `json:"roots"`
-	Endpoint string   `json:"endpoint"`
-	Step     string   `json:"step,omitempty"`
-	Mode     string   `json:"mode"`
-	Template string   `json:"template"`
-	Family   string   `json:"family"`
-	Position string   `json:"position,omitempty"` // start: which URI carries the template (outer|nested)
-	Dup      string   `json:"dup"`
-	Place    string   `json:"placement,omitempty"`
-	SigVar   string   `json:"sig_variant"`
-	TSVar    string   `json:"ts_variant"`
-	Cookie   string   `json:"cookie,omitempty"`
-	Method   string   `json:"method"`
-	Wire     string   `json:"wire,omitempty"`
-	URIs     []string `json:"redirect_uris"`
-	Sigs     []string `json:"sigs,omitempty"`
-	TSs      []string `json:"ts,omitempty"`
-	Outers   []string `json:"outer_uris,omitempty"`
-	Status   int      `json:"status"`
-	Location string   `json:"location,omitempty"`
-	Legit    string   `json:"harness_signature_check,omitempty"`
+	Index    int       `json:"index"`
+	Config   string    `json:"config"`
+	Roots    []string  `json:"roots"`
+	Endpoint string    `json:"endpoint"`
+	Step     string    `json:"step,omitempty"`
+	Mode     string    `json:"mode"`
+	Template string    `json:"template"`
+	Family   string    `json:"family"`
+	Position string    `json:"position,omitempty"` // start: which URI carries the template (outer|nested)
+	Dup      string    `json:"dup"`
+	Place    string    `json:"placement,omitempty"`
+	SigVar   string    `json:"sig_variant"`
+	TSVar    string    `json:"ts_variant"`
+	Cookie   string    `json:"cookie,omitempty"`
+	Method   string    `json:"method"`
+	Wire     string    `json:"wire,omitempty"`
+	URIs     []string  `json:"redirect_uris"`
+	Sigs     []string  `json:"sigs,omitempty"`
+	TSs      []string  `json:"ts,omitempty"`
+	Outers   []string  `json:"outer_uris,omitempty"`
+	Status   int       `json:"status"`
+	Location string    `json:"location,omitempty"`
+	Legit    string    `json:"harness_signature_check,omitempty"`
 	Readings []reading `json:"location_readings,omitempty"`
 }
 
@@ -218,14 +218,14 @@ func judgeAny(secret string, us, ss, ts []string, base int64) (int, string) {
 // ---- run state ----------------------------------------------------------------------------------------
 
 type runner struct {
-	rep   *vh.Report
-	env   vh.Env
-	cfg   *config
-	as    *sut.AuthStack
-	idpH  string // IdP host (no port)
-	idpP  string
-	dump  bool
-	pool  *cookiePool
+	rep  *vh.Report
+	env  vh.Env
+	cfg  *config
+	as   *sut.AuthStack
+	idpH string // IdP host (no port)
+	idpP string
+	dump bool
+	pool *cookiePool
 }
 
 type sigSet struct {
@@ -1052,7 +1052,7 @@ func (rn *runner) caseCallback(i int, r *rand.Rand, ti int, kc kase) {
 
 func readerSelfTest() []string {
 	type vec struct {
-		loc                  string
+		loc                string
 		bHTTPS, bHTTP, rfc string // expected host ("" = no authority)
 	}
 	vecs := []vec{
@@ -1135,7 +1135,7 @@ func TestProp(t *testing.T) {
 	}
 
 	nConfigs := env.Pick(5, 20)
-	perConfig := env.Pick(1200, 10000)
+	perConfig := env.Pick(1200, 9000)
 	only, skipAll := env.Only(stream)
 	if skipAll {
 		rep.Finish()
